@@ -71,15 +71,20 @@ fn join_toks(v: &Value) -> String {
         })
         .unwrap_or_default()
 }
-fn panic_msg(p: Box<dyn std::any::Any + Send>) -> String {
-    let s = if let Some(s) = p.downcast_ref::<&str>() {
+fn panic_full(p: Box<dyn std::any::Any + Send>) -> String {
+    if let Some(s) = p.downcast_ref::<&str>() {
         (*s).to_string()
     } else if let Some(s) = p.downcast_ref::<String>() {
         s.clone()
     } else {
         "?".to_string()
-    };
-    format!("panic:{}", s.chars().take(120).collect::<String>())
+    }
+}
+fn panic_msg(p: Box<dyn std::any::Any + Send>) -> String {
+    format!(
+        "panic:{}",
+        panic_full(p).chars().take(120).collect::<String>()
+    )
 }
 
 /// Builds a LogSpecification from its JSON description.
@@ -653,62 +658,89 @@ fn run_text(sc: &Value, out: &mut Out, root: &Path) {
                 let via = step["via"].as_str().unwrap_or("display");
                 let mut ev = json!({"ev": "RoundTrip", "how": how, "via": via, "spec": step["spec"].clone(),
                                     "text": "", "g0": [], "g1": []});
-                let r = catch_unwind(AssertUnwindSafe(
-                    || -> Result<(Value, Value, String), String> {
-                        let s = build_spec(&step["spec"], how, "")?;
-                        let g0 = plain_grid(&s, &targets);
-                        match via {
-                            "display" => {
-                                let text = s.to_string();
-                                let s1 = LogSpecification::parse(&text)
-                                    .map_err(|e| format!("err:{e}"))?;
-                                Ok((g0, plain_grid(&s1, &targets), text))
-                            }
-                            "toml" => {
-                                let mut buf = Vec::new();
-                                s.to_toml(&mut buf).map_err(|e| format!("err:{e}"))?;
-                                let text = String::from_utf8_lossy(&buf).to_string();
-                                let s1 = LogSpecification::from_toml(&text)
-                                    .map_err(|e| format!("err:{e}"))?;
-                                Ok((g0, plain_grid(&s1, &targets), text))
-                            }
-                            _ => {
-                                // specfile: the first start writes the file, the second start (with another
-                                // initial specification) must read the first one back
-                                let dir = root.join(format!("sf-{}-{}", sc["sc"], k));
-                                let _ = std::fs::remove_dir_all(&dir);
-                                let file = dir.join("spec.toml");
-                                let sink = || {
-                                    Box::new(RecWriter {
-                                        got: Arc::new(Mutex::new(Vec::new())),
-                                        max: LevelFilter::Trace,
-                                    })
-                                };
-                                {
-                                    let (_l, _h) = Logger::with(s)
+                let attempt = || {
+                    catch_unwind(AssertUnwindSafe(
+                        || -> Result<(Value, Value, String), String> {
+                            let s = build_spec(&step["spec"], how, "")?;
+                            let g0 = plain_grid(&s, &targets);
+                            match via {
+                                "display" => {
+                                    let text = s.to_string();
+                                    let s1 = LogSpecification::parse(&text)
+                                        .map_err(|e| format!("err:{e}"))?;
+                                    Ok((g0, plain_grid(&s1, &targets), text))
+                                }
+                                "toml" => {
+                                    let mut buf = Vec::new();
+                                    s.to_toml(&mut buf).map_err(|e| format!("err:{e}"))?;
+                                    let text = String::from_utf8_lossy(&buf).to_string();
+                                    let s1 = LogSpecification::from_toml(&text)
+                                        .map_err(|e| format!("err:{e}"))?;
+                                    Ok((g0, plain_grid(&s1, &targets), text))
+                                }
+                                _ => {
+                                    // specfile: the first start writes the file, the second start (with another
+                                    // initial specification) must read the first one back
+                                    let dir = root.join(format!("sf-{}-{}", sc["sc"], k));
+                                    let _ = std::fs::remove_dir_all(&dir);
+                                    let file = dir.join("spec.toml");
+                                    let sink = || {
+                                        Box::new(RecWriter {
+                                            got: Arc::new(Mutex::new(Vec::new())),
+                                            max: LevelFilter::Trace,
+                                        })
+                                    };
+                                    {
+                                        let (_l, _h) = Logger::with(s)
+                                            .log_to_writer(sink())
+                                            .build_with_specfile(&file)
+                                            .map_err(|e| format!("err:{e}"))?;
+                                    }
+                                    let text = std::fs::read_to_string(&file)
+                                        .map_err(|e| format!("err:{e}"))?;
+                                    let other = if step["spec"]["d"].as_i64() == Some(5) {
+                                        LogSpecification::off()
+                                    } else {
+                                        LogSpecification::trace()
+                                    };
+                                    let (l2, _h2) = Logger::with(other)
                                         .log_to_writer(sink())
                                         .build_with_specfile(&file)
                                         .map_err(|e| format!("err:{e}"))?;
+                                    let g1 = logger_grid(l2.as_ref(), &targets);
+                                    let _ = std::fs::remove_dir_all(&dir);
+                                    Ok((g0, g1, text))
                                 }
-                                let text = std::fs::read_to_string(&file)
-                                    .map_err(|e| format!("err:{e}"))?;
-                                let other = if step["spec"]["d"].as_i64() == Some(5) {
-                                    LogSpecification::off()
-                                } else {
-                                    LogSpecification::trace()
-                                };
-                                let (l2, _h2) = Logger::with(other)
-                                    .log_to_writer(sink())
-                                    .build_with_specfile(&file)
-                                    .map_err(|e| format!("err:{e}"))?;
-                                let g1 = logger_grid(l2.as_ref(), &targets);
-                                let _ = std::fs::remove_dir_all(&dir);
-                                Ok((g0, g1, text))
                             }
-                        }
-                    },
-                ));
-                match r {
+                        },
+                    ))
+                    .map_err(panic_full)
+                };
+                let mut r = attempt();
+                if via == "specfile" {
+                    // Every start with a specfile creates an inotify instance that lives until the
+                    // debouncer thread notices the drop (up to 250 ms); the per-user limit (128) is
+                    // an environment resource this harness must not exhaust: pace, and retry once
+                    // the instances have been released.
+                    let exhausted = |r: &Result<Result<(Value, Value, String), String>, String>| {
+                        let m = match r {
+                            Err(m) | Ok(Err(m)) => m.as_str(),
+                            _ => "",
+                        };
+                        m.contains("Too many open files")
+                            || m.contains("code: 24")
+                            || m.contains("os error 24")
+                            || m.contains("MaxFilesWatch")
+                    };
+                    let mut tries = 0;
+                    while exhausted(&r) && tries < 4 {
+                        std::thread::sleep(Duration::from_millis(1500));
+                        r = attempt();
+                        tries += 1;
+                    }
+                    std::thread::sleep(Duration::from_millis(12));
+                }
+                match r.map_err(|m| format!("panic:{}", m.chars().take(120).collect::<String>())) {
                     Ok(Ok((g0, g1, text))) => {
                         ev["g0"] = g0;
                         ev["g1"] = g1;
@@ -716,7 +748,7 @@ fn run_text(sc: &Value, out: &mut Out, root: &Path) {
                         ev["ret"] = json!("ok");
                     }
                     Ok(Err(e)) => ev["ret"] = json!(e),
-                    Err(p) => ev["ret"] = json!(panic_msg(p)),
+                    Err(p) => ev["ret"] = json!(p),
                 }
                 out.emit(ev);
             }
